@@ -660,6 +660,53 @@ func ruleID1(c *Ctx) []Ob {
 			o.add(OK, key, pos, "the save is reached only when the saved document's ObjectId() equals the id the key was built from")
 			continue
 		}
+		// (c) the same test inside a helper: check(id, saved) error, whose nil result guards the save
+		var hguards []edge
+		allCalls(wc.Fn, func(hc ssa.CallInstruction) {
+			hcall, ok := hc.(*ssa.Call)
+			if !ok {
+				return
+			}
+			h := staticCallee(hc)
+			if h == nil || !c.IsLib(c.declared(h)) || errResultIndex(h.Signature) < 0 {
+				return
+			}
+			h = c.declared(h)
+			// which parameters does the helper compare: ObjectId(param a) against string param b
+			for _, hb := range h.Blocks {
+				for _, hin := range hb.Instrs {
+					bo, ok := hin.(*ssa.BinOp)
+					if !ok || (bo.Op != token.EQL && bo.Op != token.NEQ) {
+						continue
+					}
+					for _, pair := range [][2]ssa.Value{{bo.X, bo.Y}, {bo.Y, bo.X}} {
+						oc, ok := c.isObjectIdCall(stripConv(pair[0]))
+						if !ok {
+							continue
+						}
+						pa, okA := oc.Common().Args[0].(*ssa.Parameter)
+						pb, okB := pair[1].(*ssa.Parameter)
+						if !okA || !okB {
+							continue
+						}
+						ai, bi := paramIndex(h, pa), paramIndex(h, pb)
+						args := hcall.Common().Args
+						if ai < 0 || bi < 0 || ai >= len(args) || bi >= len(args) {
+							continue
+						}
+						if (args[ai] == wc.Doc || sameOrigin(args[ai], wc.Doc)) && (args[bi] == idV || sameOrigin(args[bi], idV)) {
+							for _, rv := range resultValues(hcall, errResultIndex(h.Signature)) {
+								hguards = append(hguards, nilEdges(wc.Fn, sameValue(rv))...)
+							}
+						}
+					}
+				}
+			}
+		})
+		if guardedBy(wc.Fn, wc.Call.Block(), hguards) {
+			o.add(OK, key, pos, "the save is reached only after a helper found the saved document's ObjectId() equal to the id the key was built from")
+			continue
+		}
 		o.add(VIOLATED, key, pos, "the record is written under a key built from %s while nothing ties the saved document's _id to it: an updater that changes _id makes the document reachable under a key different from its _id", describeValue(c, idV))
 	}
 	return o.list
